@@ -24,6 +24,7 @@ const (
 	KillNNOther   = 8  // some other slot set to a non-nil value
 	KillAny       = 16 // anything else
 	KillNNPrimary = 32 // the primary's slot set to a non-nil value
+	KillStable    = 64 // write of a per-height stable location (MyIndex/Priv/Pub): a kill only if the validator list changed
 )
 
 type State struct {
@@ -38,6 +39,8 @@ type State struct {
 	ReadSeen map[string]bool
 	// Log: ordered events (bounded)
 	Log []string
+	// Pending: stable locations written before any change of the validator list on this path
+	Pending map[string]bool
 	// FieldVal: symbolic values of scalar fields written on this path (only with Walker.trackFields)
 	FieldVal map[string]*Term
 	// Sticky: literals that were facts on this path before a write invalidated them (admission facts)
@@ -67,6 +70,12 @@ func (s *State) clone() *State {
 		n.ReadSeen = make(map[string]bool, len(s.ReadSeen))
 		for k := range s.ReadSeen {
 			n.ReadSeen[k] = true
+		}
+	}
+	if s.Pending != nil {
+		n.Pending = make(map[string]bool, len(s.Pending))
+		for k := range s.Pending {
+			n.Pending[k] = true
 		}
 	}
 	if s.FieldVal != nil {
@@ -289,6 +298,9 @@ func (w *Walker) doExit(s *State, rets []*Term) {
 	}
 	for _, x := range sts {
 		x.Ret = rets
+		for l := range x.Pending {
+			x.Killed[l] |= KillStable
+		}
 		w.exits = append(w.exits, x)
 	}
 }
@@ -884,8 +896,8 @@ func (w *Walker) afterScalarWrite(field, val *Term, st *State) {
 
 // write applies a write to a location: site record, kills, fact transforms.
 func (w *Walker) write(loc string, kind int, idx, val *Term, st *State, at ast.Node) {
-	if w.A.stableLoc(w, loc, st) {
-		return
+	if isStableLoc(loc) && w.Fn.Pkg.PkgPath == modPath {
+		kind = KillStable
 	}
 	if w.record {
 		site := w.recA().siteFor(w.Fn, at, "write", "", loc)
@@ -925,6 +937,28 @@ func (s *State) logEv(e string) {
 }
 
 func applyKill(st *State, loc string, kind int, idx *Term) {
+	if kind&KillStable != 0 && kind&^KillStable != 0 {
+		kind = KillAny
+	}
+	if kind&KillStable != 0 {
+		// re-derivation from the validator list: the same value unless the list itself was replaced on this path (A1)
+		if st.Killed["ctx.Validators"] == 0 {
+			st.Killed[loc] |= 0
+			if st.Pending == nil {
+				st.Pending = map[string]bool{}
+			}
+			st.Pending[loc] = true
+			return
+		}
+		kind = KillAny
+	}
+	if loc == "ctx.Validators" && st.Pending != nil {
+		// the validator list changes after a stable location was written on this path: those writes were real kills
+		for l := range st.Pending {
+			delete(st.Pending, l)
+			applyKill(st, l, KillAny, nil)
+		}
+	}
 	st.Killed[loc] |= kind
 	if loc == "ctx.ViewNumber" {
 		st.logEv("ev:epoch-write")
